@@ -1,5 +1,6 @@
 import ParryModel.Proto
 import ParryModel.C18.Model
+import ParryModel.C18.DriverVox
 import Std.Data.HashSet
 /-! C18 protocol handlers. -/
 namespace C18
@@ -368,6 +369,6 @@ def handler (fn : String) : Option Handler :=
             | some bad => bad
             | none => hullOracle org sc parts hs)
           | none => "fail unparsable-output" }
-  | _ => none
+  | _ => handlerVox fn
 
 end C18
